@@ -303,7 +303,13 @@ func c19LineMap(r *an.Run) {
 	n := 0
 	// ToBytes
 	if f := fn(r, sectRel, "ToBytes"); f != nil {
-		ils := findIndexLoops(f, isLenOfPath("s"))
+		var ils []*an.IndexLoop
+		for _, il := range findIndexLoops(f, isLenOfPath("s")) {
+			// the loop that copies the lines (another pass over the section may only measure it)
+			if len(callsInLoop(il.Loop, "(*bytes.Buffer).Write")) > 0 {
+				ils = append(ils, il)
+			}
+		}
 		if r.Check(len(ils) == 1, short(f)+"|loop", f.Pos(), "ToBytes loops over all lines") {
 			il := ils[0]
 			var lenCall, write, posCall *ssa.Call
